@@ -28,7 +28,7 @@ EXPLANATION = (
     "edits go through the boundary-aware helper only (no str.replace on equations in _update_equation; the rule table keys "
     "replace/remove/append/prepend are each handled).  R5 the key under which a definition is stored in the dump dictionary is re-tested "
     "until it is unused or holds an equal definition (a while loop, not a single if).  R6 from_yaml derives through update_template of "
-    "the loaded base and instantiates known classes with exactly the loaded dictionary.  NOT decided: dynamics of round-tripped models, "
+    "the loaded base and instantiates known classes with exactly the loaded dictionary.  R4 also: no replace/remove edit can run after an append/prepend edit of the same update (added text is not rewritten).  NOT decided: dynamics of round-tripped models, "
     "relative path resolution on a file system, ruamel.yaml behaviour; a dumped operator variant gets a new name (op_num1) - a format "
     "limitation that is outside these rules."
 )
@@ -290,6 +290,21 @@ def r4_edits_use_boundary_aware_helper(ctx, rid):
         else:
             ctx.violation(rid, f, blocks[0], f"a form of the `{key}` edit does not apply parser.replace to the equation (the edit is dropped or done "
                                              f"without token boundaries)", label=f"`{key}` uses the helper")
+    # order of the edits: `replace` / `remove` act on the base equation; text given through `append` / `prepend` is added afterwards and
+    # must not be rewritten by them (a YAML edit {replace: {x: y}, append: "- k*x"} means "- k*x", not "- k*y")
+    cfg = ctx.cfg(f)
+    adders = [st for st in cfg.stmts() if isinstance(st, (ast.Assign, ast.AugAssign))
+              and any(isinstance(t, ast.Name) and t.id == eqn for t in (st.targets if isinstance(st, ast.Assign) else [st.target]))
+              and any(isinstance(n, ast.Name) and n.id in ("append", "prepend") and isinstance(n.ctx, ast.Load) for n in ast.walk(st.value))]
+    rewriters = [st for st in cfg.stmts() if isinstance(st, (ast.Assign, ast.AugAssign)) and any(c in good_calls or c in bad_calls for c in ast.walk(st))]
+    if adders and rewriters:
+        late = [(a, r) for a in adders for r in rewriters if cfg.reachable_after(a, r)]
+        if late:
+            a, r = late[0]
+            ctx.violation(rid, f, r, f"`{norm(r)[:60]}` can run after `{norm(a)[:50]}`: the appended / prepended text is itself rewritten by the "
+                                     f"replace / remove edits of the same update", label="replace/remove precede append/prepend")
+        else:
+            ctx.ok(rid, f, adders[0], "append / prepend are applied after every replace / remove", label="replace/remove precede append/prepend")
     # every documented edit key is handled
     params = set(f.params)
     for key in ("replace", "remove", "append", "prepend"):
